@@ -46,17 +46,19 @@ OPERAND_GROUPS = [
     ["nil", "nil", "true", "true", "false", "false"],
     ["'s'", "\"s\"", "[[s]]", "'s#'", "'s#'", "''", "''", "'#'"],
     ["f ( )", "f ( )", "f ( a )", "f ( a )", "f ( ( a ) )", "f ( g ( ) )", "f ( ( g ( ) ) )", "f ( ( g ( ) ) )", "f { }",
-     "f 's'", "f 's'", "a : m ( )", "a : m ( )", "a . m ( )", "a : n ( )"],
+     "f 's'", "f 's'", "a : m ( )", "a : m ( )", "a . m ( )", "a : n ( )", "( f ( ) )", "( ( f ( ) ) )", "( f ( a ) )",
+     "f ( ( ( g ( ) ) ) )", "f ( ( g ( ) ) , 1 )", "f ( g ( ) , 1 )"],
     ["- a", "- a", "not a", "not a", "# a", "- ( a )", "- b"],
     ["a + 1", "a + 1", "a + 1.0", "1 + a", "( a + 1 )", "a .. 's'", "a .. 's'", "a + b * 2", "a + b * 2", "( a + b ) * 2"],
-    ["...", "...", "( ... )", "( ... )"],
+    ["...", "...", "( ... )", "( ... )", "( ( ... ) )", "f ( ... )", "f ( ... )", "f ( ( ... ) )", "f ( ( ... ) )"],
     ["{ }", "{ }", "function ( ) end", "function ( ) end", "{ 1 }", "{ 1 }"],
     ["x == 1", "x == 1", "x == 1.0", "x == 0.5", "x == 0.5", "x == 0.50", "x ~= 0.5", "x == nil", "x == nil"],
     ["9223372036854775807", "9223372036854775807", "9223372036854775808", "9223372036854775808", "1e999", "1e999"],
 ]
-# operands with an internal name (check 14 works on those), no string spelled like a name
+# operands with an internal name (check 14 works on those); since C20-t14-name-collision a string spelled like a name
+# is no deviation any more
 CLEAN_GROUPS = [
-    ["a", "a", "( a )", "b"],
+    ["a", "a", "( a )", "( ( a ) )", "'!a'", "b"],
     ["a . b", "a . b", "a [ 'b' ]", "( a ) . b", "( a . b )", "a . c", "a [ b ]", "b . b"],
     ["a . b . c", "a . b [ 'c' ]", "a [ 'b' ] . c", "( a . b ) . c", "a . b . d"],
     ["'s'", "\"s\"", "[[s]]", "'t'", "''", "''"],
@@ -74,15 +76,18 @@ KEY_POOL = ["a =", "a =", "[ 'a' ] =", "[ a ] =", "[ '!a' ] =", "[ 1 ] =", "[ 1 
             "[ - 1 ] =", "[ 2 ] =", "[ 2 ] =", "b =", "[ \"b\" ] =", "[ b ] =", "[ a . b ] =", "[ a . b ] =", "",
             "[ 1e0 ] =", "[ 9223372036854775807 ] =", "[ 0x7fffffffffffffff ] =", "[ 0xffffffffffffffff ] =",
             "[ '#int-1' ] =", "[ 10LL ] =", "[ 10 ] ="]
-# conditions without grouping parentheses, `nil` and the literal `true` (the synthetic condition of `else`)
+# conditions; grouping parentheses, `nil` and the literal `true` (the synthetic condition of `else`) are no deviations
+# any more since C20-parens, C20-nil-loc, C20-t19-else
 CLEAN_COND_GROUPS = [
-    ["a", "a", "b", "not a", "not a", "a . b", "a . b", "a [ 'b' ]"],
+    ["a", "a", "b", "not a", "not a", "a . b", "a . b", "a [ 'b' ]", "( a )", "( a . b )"],
+    ["nil", "nil", "true", "true", "( true )", "( nil )", "false"],
     ["x == 1", "x == 1", "x == 1.0", "x == 2", "1 == x", "x ~= 1", "x == 0.5", "x == 0.5", "x == 0.50", "x == 0.500002"],
     ["f ( a )", "f ( a )", "f ( b )", "f ( a , b )", "a : m ( )", "a : m ( )", "a . m ( )", "f { }", "f 's'", "f 's'"],
     ["a and b", "a and b", "b and a", "a or b", "a and b or x", "a and b or x", "# t > 0", "# t > 0", "# t > 1"],
     ["a [ 1 ]", "a [ 1 ]", "a [ 1.0 ]", "a [ '1' ]", "a [ 0x1 ]", "false", "false", "1", "1", "'s'", "...", "..."],
 ]
-CLEAN_KEYS = ["a =", "a =", "[ 'a' ] =", "[ a ] =", "b =", "[ \"b\" ] =", "[ b ] =", "[ 1 ] =", "[ '1' ] =", "[ 1.0 ] =",
+CLEAN_KEYS = ["[ '' ] =", "[ '' ] =", "[ '!a' ] =", "[ '#int1' ] =", "[ 1 ] =", "[ 0x1 ] =",
+              "a =", "a =", "[ 'a' ] =", "[ a ] =", "b =", "[ \"b\" ] =", "[ b ] =", "[ 1 ] =", "[ '1' ] =", "[ 1.0 ] =",
               "[ 2 ] =", "[ true ] =", "[ true ] =", "[ - 1 ] =", "[ - 1 ] =", "[ a . b ] =", "[ a . b ] =", "", "",
               "[ 'a b' ] =", "[ 'a b' ] =", "x ="]
 
@@ -125,8 +130,8 @@ class PGen(Gen):
             op = r.choice(CMP_OPS) if r.random() < 0.85 else r.choice(OTHER_OPS)
             return toks("%s %s %s" % (self.wrap(x), op, self.wrap(y)))
         if k < 0.7:         # or true / and false (15, 16)
-            other = r.choice(["a", "a . b", "f ( )", "1", "'s'", "( a )", "not a", "x == 1", "...", "{ }", "a . b . c"]
-                             + (["nil", "nil", "true", "false"] if self.dirty else []))
+            other = r.choice(["a", "a . b", "f ( )", "1", "'s'", "( a )", "not a", "x == 1", "...", "{ }", "a . b . c",
+                              "nil", "nil", "true", "false"])
             lit = r.choice(["true", "false", "true", "false", "( true )", "not false", "nil", "1"])
             op = r.choice(["or", "and", "or", "and", "==", ".."])
             src = "%s %s %s" % ((other, op, lit) if r.random() < 0.6 else (lit, op, other))
@@ -202,7 +207,7 @@ class PGen(Gen):
                 if m < 0.6:
                     es.append(v)
                 elif m < 0.75:
-                    es.append(("( " + v + " )") if self.dirty else v)
+                    es.append("( " + v + " )")
                 elif m < 0.85:
                     es.append(r.choice(VARS))
                 else:
@@ -251,7 +256,7 @@ class PGen(Gen):
             n = r.choice([1, 2, 2, 3, 3, 4])
             out = []
             for i in range(n):
-                c = self.wrap(r.choice(pool), 0.12 if self.dirty else 0.0)
+                c = self.wrap(r.choice(pool), 0.12)
                 out += [T("if" if i == 0 else "elseif")] + toks(c) + [T("then")] + self.block(d - 1)
             if r.random() < 0.4:
                 out += [T("else")] + self.block(d - 1)
